@@ -424,5 +424,37 @@ macro "other_tac " h:ident hm:ident : tactic => `(tactic| (
     obtain ⟨_, eq4⟩ := pure_ok hqB; subst eq4; exact Flow.refl _
   · obtain ⟨_, eq4⟩ := pure_ok hqA; subst eq4; exact Flow.refl _))
 
+/-- **every** message stepped by a leader keeps the flow-control limits: the configuration is
+untouched, `msgs` is only appended to, every appended `MsgApp` carries at most `MaxSizePerMsg` bytes
+of entries (or a single entry), and all inflight windows keep `count ≤ size` -/
+theorem stepLeader_flow (fuel : Nat) (m : Message) (r r' : Raft) (res : Option StepErr)
+    (h : (stepLeader fuel m).run r = .ok (res, r')) : Flow r r' := by
+  cases hm : m.typ with
+  | beat => exact stepLeader_beat_flow fuel m hm r r' res h
+  | checkQuorum => exact stepLeader_checkQuorum_flow fuel m hm r r' res h
+  | prop => exact stepLeader_prop_flow fuel m hm r r' res h
+  | readIndex => exact stepLeader_readIndex_flow fuel m hm r r' res h
+  | forgetLeader => exact stepLeader_forgetLeader_flow fuel m hm r r' res h
+  | appResp => exact stepLeader_appResp_flow fuel m hm r r' res h
+  | heartbeatResp => exact stepLeader_heartbeatResp_flow fuel m hm r r' res h
+  | snapStatus => exact stepLeader_snapStatus_flow fuel m hm r r' res h
+  | unreachable => exact stepLeader_unreachable_flow fuel m hm r r' res h
+  | transferLeader => exact stepLeader_transferLeader_flow fuel m hm r r' res h
+  | hup => other_tac h hm
+  | app => other_tac h hm
+  | vote => other_tac h hm
+  | voteResp => other_tac h hm
+  | snap => other_tac h hm
+  | heartbeat => other_tac h hm
+  | timeoutNow => other_tac h hm
+  | readIndexResp => other_tac h hm
+  | preVote => other_tac h hm
+  | preVoteResp => other_tac h hm
+  | storageAppend => other_tac h hm
+  | storageAppendResp => other_tac h hm
+  | storageApply => other_tac h hm
+  | storageApplyResp => other_tac h hm
+
+
 end Raft
 end RaftVerif
